@@ -10,7 +10,12 @@
    <= 3 references over 3 kinds x 4 path forms, and every single reference (4 kinds x all path
    forms, valid and invalid) from depth 0, 1, 2.  Tier 2: the same layouts with 4 kinds x 5 path
    forms, two 4-file layouts with <= 4 references, <= 5 render references among 3 files, all
-   pairs of valid path forms from depth 1.                                                                               *)
+   pairs of valid path forms from depth 1.
+   A second, structured space ("fan" families, see FanCodes): an entry file with two references to
+   two different files, each of which has one relative or dot-dot reference of its own.  Tier 1:
+   entry b.html, 5 files in 3 directories, render parents in every form that resolves to a file,
+   render / render-default children over 5 forms (4800 graphs).  Tier 2: import/render parents and
+   import/render/render-default children over 6 forms, an entry file at depth 1, extends parents. *)
 EXTENDS Loader, Json, SequencesExt
 CONSTANTS Tier
 
@@ -30,6 +35,12 @@ PBad  == {<<"">>, <<".">>, <<"..">>, <<"", "">>, <<".", "a.html">>, <<"a.html", 
           <<"", "", "a.html">>, <<"e", "..", "..", "..", "b.html">>}
 PAll  == PRel \cup PAbs \cup PUp \cup PBad
 
+\* fan families: the absolute form of every file, relative and dot-dot forms
+PFanP == PAbs \cup {<<"a.html">>, <<"b.html">>, <<"d", "a.html">>, <<"d", "b.html">>, <<"d", "e", "a.html">>,
+                    <<"e", "a.html">>, <<"..", "a.html">>, <<"..", "b.html">>}
+PFanQ == {<<"a.html">>, <<"b.html">>, <<"e", "a.html">>, <<"..", "a.html">>, <<"..", "b.html">>}
+PFanT == PFanQ \cup {<<"..", "..", "a.html">>}
+
 \* a family: files, kinds, paths as sequences (files in NameSeq order, kinds in statement order).
 \* The references of a family are numbered 1..n owner-major, then kind, then path; the record
 \* carries what the generator needs per reference number (tables are built once per family):
@@ -38,13 +49,18 @@ PAll  == PRel \cup PAbs \cup PUp \cup PBad
 RECURSIVE Pow(_, _)
 Pow(b, n) == IF n = 0 THEN 1 ELSE b * Pow(b, n - 1)
 \* (operator arguments, not LET: TLC re-evaluates a LET-bound value at every use)
-Fam3(f, e, k, ps, m, n, own) ==
+\*   shape "seq": every canonical list of <= max references; shape "fan" (kp, kc: kinds of the
+\*   parent's and of the children's references, pc: path forms of the children's references; the
+\*   parent's are all forms of the path set that resolve to a file): see FanCodes below
+Fam3(f, e, k, ps, m, n, own, shape, kp, kc, pc) ==
   [files |-> f, entry |-> e, kinds |-> k, paths |-> ps, max |-> m, n |-> n, b |-> n + 1,
-   pw |-> [j \in 1..(m + 2) |-> Pow(n + 1, j - 1)], own |-> own,
-   tgt |-> [d \in 1..n |-> Rooted(Dir(own[d]), ps[((d - 1) % Len(ps)) + 1])]]
-Fam2(f, e, k, ps, m, n) == Fam3(f, e, k, ps, m, n, [d \in 1..n |-> f[((d - 1) \div (Len(k) * Len(ps))) + 1]])
-Fam1(f, e, k, ps, m) == Fam2(f, e, k, ps, m, Len(f) * Len(k) * Len(ps))
-Fam(f, e, k, p, m) == Fam1(f, e, k, SetToSeq(p), m)
+   pw |-> [j \in 1..(m + 2) |-> IF shape = "seq" THEN Pow(n + 1, j - 1) ELSE 0], own |-> own,
+   tgt |-> [d \in 1..n |-> Rooted(Dir(own[d]), ps[((d - 1) % Len(ps)) + 1])],
+   shape |-> shape, kp |-> kp, kc |-> kc, pc |-> pc]
+Fam2(f, e, k, ps, m, n, shape, kp, kc, pc) == Fam3(f, e, k, ps, m, n, [d \in 1..n |-> f[((d - 1) \div (Len(k) * Len(ps))) + 1]], shape, kp, kc, pc)
+Fam1(f, e, k, ps, m, shape, kp, kc, pc) == Fam2(f, e, k, ps, m, Len(f) * Len(k) * Len(ps), shape, kp, kc, pc)
+Fam(f, e, k, p, m) == Fam1(f, e, k, SetToSeq(p), m, "seq", {}, {}, {})
+Fan(f, e, k, pp, kp, kc, pc) == Fam1(f, e, k, SetToSeq(pp \cup pc), 4, "fan", kp, kc, pc)
 K3 == <<"extends", "import", "render">>
 K4 == <<"extends", "import", "render", "renderd">>
 KI == <<"import", "render", "renderd">>
@@ -56,7 +72,8 @@ Fams ==
        Fam(<<A, DA, DEA>>, DA, KI, {<<"e", "a.html">>, <<"..", "a.html">>, <<"..", "..", "a.html">>, <<"", "d", "a.html">>}, 3),
        Fam(<<B, DB, DEA>>, DEA, KE, {<<"..", "b.html">>, <<"..", "..", "b.html">>, <<"..", "..", "..", "b.html">>, <<"", "d", "e", "a.html">>}, 3),
        Fam(All5, A, K4, PAll, 1), Fam(All5, DA, K4, PAll, 1), Fam(All5, DEA, K4, PAll, 1),
-       Fam(<<A>>, B, K3, {}, 0), Fam(<<DA>>, A, K3, {}, 0) >>
+       Fam(<<A>>, B, K3, {}, 0), Fam(<<DA>>, A, K3, {}, 0),
+       Fan(All5, B, <<"render", "renderd">>, PFanP, {"render"}, {"render", "renderd"}, PFanQ) >>
   ELSE
     << Fam(<<A, B, DA>>, A, K4, PRootMix \ {<<"..", "..", "b.html">>}, 3),
        Fam(<<A, DA, DEA>>, DA, K4, PMidMix \ {<<"a.html">>}, 3),
@@ -66,11 +83,16 @@ Fams ==
        Fam(<<A, B, DA>>, A, <<"render">>, {<<"", "a.html">>, <<"", "b.html">>, <<"", "d", "a.html">>}, 5),
        Fam(All5, A, K4, PAll, 1), Fam(All5, DA, K4, PAll, 1), Fam(All5, DEA, K4, PAll, 1),
        Fam(All5, DA, <<"import", "render">>, PRel \cup PAbs \cup PUp, 2),
-       Fam(<<A>>, B, K3, {}, 0), Fam(<<DA>>, A, K3, {}, 0) >>
+       Fam(<<A>>, B, K3, {}, 0), Fam(<<DA>>, A, K3, {}, 0),
+       Fan(All5, B, KI, PFanP, {"import", "render"}, {"import", "render", "renderd"}, PFanT),
+       Fan(All5, DA, <<"render", "renderd">>, PFanP, {"render"}, {"render", "renderd"}, PFanT),
+       Fan(<<A, DA, DB, DEA>>, A, K4, PFanP, {"extends", "render"}, {"render", "renderd"}, PFanQ) >>
 
 (* A reference list is coded as an integer: a list d1..dk of reference numbers is the number
    sum dj * b^(j-1); its canonical order is "group numbers do not decrease" (group = owner x
    kind).  Sets of integers are what TLC builds fast; a graph is decoded only when needed.      *)
+KindOf(fam, d) == fam.kinds[(((d - 1) \div Len(fam.paths)) % Len(fam.kinds)) + 1]
+PathOf(fam, d) == fam.paths[((d - 1) % Len(fam.paths)) + 1]
 Digit(fam, c, j) == (c \div fam.pw[j]) % fam.b
 Group(fam, d) == (d - 1) \div Len(fam.paths)
 RefAt(fam, d) == [o |-> fam.own[d],
@@ -78,7 +100,8 @@ RefAt(fam, d) == [o |-> fam.own[d],
                   p |-> fam.paths[((d - 1) % Len(fam.paths)) + 1]]
 RECURSIVE NDigits(_, _, _)
 NDigits(fam, c, j) == IF Digit(fam, c, j + 1) = 0 THEN j ELSE NDigits(fam, c, j + 1)
-RefsOfCode(fam, c) == [j \in 1..NDigits(fam, c, 0) |-> RefAt(fam, Digit(fam, c, j))]
+RefsOfCode(fam, c) == IF fam.shape = "fan" THEN [j \in 1..Len(c) |-> RefAt(fam, c[j])]
+                      ELSE [j \in 1..NDigits(fam, c, 0) |-> RefAt(fam, Digit(fam, c, j))]
 \* codes of the canonical lists of exactly n references
 RECURSIVE Level(_, _)
 Level(fam, n) ==
@@ -94,8 +117,23 @@ LiveCode(fam, c) == LiveDigits(fam, [j \in 1..NDigits(fam, c, 0) |-> Digit(fam, 
 \* (no UNION over big sets: TLC's UNION is quadratic; \cup sorts)
 RECURSIVE UpTo(_, _)
 UpTo(fam, n) == IF n = 0 THEN Level(fam, 0) ELSE UpTo(fam, n - 1) \cup Level(fam, n)
-Codes(fam) == {c \in UpTo(fam, fam.max) : LiveCode(fam, c)}
 FileSet(fam) == {fam.files[i] : i \in 1..Len(fam.files)}
+(* Fan-out graphs (the second case space): the entry file has two references, in statement order,
+   to two DIFFERENT existing files other than itself - each written in any form of the path set
+   that resolves there (absolute, relative, dot-dot) - and each of the two files has one
+   reference written in a relative or dot-dot form (fam.pc).  Every combination: the two children in the
+   same or in different directories, above or below the entry file, their references resolving to
+   an existing file, to a missing one, to the sibling, to an ancestor (a cycle), or leaving the
+   root.  What a child's reference resolves to depends on the child's own directory only - not on
+   the entry file's, not on the directory of the file expanded just before at the same depth.
+   A code is the tuple of the four reference numbers (no base-b number: b^4 exceeds 32 bits).   *)
+FanParents(fam) == {d \in 1..fam.n : fam.own[d] = fam.entry /\ KindOf(fam, d) \in fam.kp /\ fam.tgt[d] \in FileSet(fam) \ {fam.entry}}
+FanKids(fam) == {d \in 1..fam.n : fam.own[d] # fam.entry /\ KindOf(fam, d) \in fam.kc /\ PathOf(fam, d) \in fam.pc}
+FanCodesOf(fam, PD, KD) ==
+  {t \in PD \X PD \X KD \X KD : /\ fam.tgt[t[1]] # fam.tgt[t[2]] /\ Group(fam, t[1]) <= Group(fam, t[2])
+                                   /\ fam.own[t[3]] = fam.tgt[t[1]] /\ fam.own[t[4]] = fam.tgt[t[2]]}
+FanCodes(fam) == FanCodesOf(fam, FanParents(fam), FanKids(fam))
+Codes(fam) == IF fam.shape = "fan" THEN FanCodes(fam) ELSE {c \in UpTo(fam, fam.max) : LiveCode(fam, c)}
 GraphOf(fam, c) == [files |-> FileSet(fam), entry |-> fam.entry, refs |-> RefsOfCode(fam, c)]
 
 (* The model as a TLC state machine: st is the loader's state, pc the label of the branch taken
